@@ -13,6 +13,7 @@ fn show_subst(s: &Subst) -> String {
     format!("{v:?}")
 }
 
+const F_TEXT: &str = "(lam $1 (h (v $1) (v $f500)))";
 const TIE: [&str; 8] = ["tie_alpha", "tie_beta", "tie_gamma", "tie_delta", "tie_epsilon", "tie_zeta", "tie_eta", "tie_theta"];
 
 /// the main history: 6 steps, one per operation of Threads.tla's MainProg
@@ -92,6 +93,10 @@ fn main_step(k: usize, eg: &mut EGraph<T>, hs: &mut Vec<AppliedId>) {
             let s = Slot::named("xname");
             let t = Slot::fresh();
             println!("step5 named={s} fresh={t}");
+            // a text with a slot of the internal form `$f<n>` (and no textual name): parsing it moves THIS thread's fresh
+            // counter past n, whether or not another thread has parsed the same text before
+            let w = add(eg, F_TEXT);
+            println!("step5 {w:?} fresh={}", Slot::fresh());
             let a = add(eg, "(h (v $xname) gamma)");
             println!("step5 {a:?} progress={:?}", { let p = eg.progress(); (p.number_of_classes, p.number_of_live_classes, p.sum_of_slots, p.sum_of_symmetries) });
             eg.dump();
@@ -118,7 +123,12 @@ fn main_step(k: usize, eg: &mut EGraph<T>, hs: &mut Vec<AppliedId>) {
 fn noise_step(k: usize, eg: &mut EGraph<T>) {
     match k {
         0 => { let _ = Symbol::from("zeta"); let _ = Symbol::from("omega"); eg.add_expr(RecExpr::parse("(h zeta (g omega))").unwrap()); }
-        1 => { for _ in 0..5 { let _ = Slot::fresh(); } let _ = Slot::named("xname"); let _ = Slot::named("other"); }
+        1 => {
+            for _ in 0..5 { let _ = Slot::fresh(); }
+            let _ = Slot::named("xname");
+            let _ = Slot::named("other");
+            let _ = RecExpr::<T>::parse(F_TEXT);       // the same text the main thread parses later
+        }
         2 => {
             let _ = Symbol::from("beta"); let _ = Symbol::from("gamma"); eg.add_expr(RecExpr::parse("(h gamma beta)").unwrap());
             // unrelated work that happens to mention the main thread's later constants, in another order
